@@ -224,9 +224,9 @@ def gen_general(rng, seed, family=None, faults=('loss', 'kill', 'clean_restart',
             if n['role'] != 'source' and rng.random() < 0.15:
                 cfg['sources_low_latency'] = True              # no prefetch request
                 used.append('low_latency')
-            if n['role'] == 'sink' and rng.random() < 0.15:
-                cfg['sources_timeout'] = rng.choice([150, 400])   # process({}) when nothing arrived in time
-                used.append('sources_timeout')
+            if (n['role'] == 'sink' and rng.random() < 0.15) or (n['role'] == 'relay' and rng.random() < 0.1):
+                cfg['sources_timeout'] = rng.choice([150, 400])   # process({}) when nothing arrived in time (a relay then publishes an empty set under an id of its own)
+                used.append('sources_timeout' if n['role'] == 'sink' else 'sources_timeout_relay')
             if n['role'] != 'sink' and rng.random() < 0.12:
                 cfg['outputs_timeout'] = rng.choice([0, 150, 500])   # give up on a publish nobody asked for
                 used.append('outputs_timeout')
